@@ -356,6 +356,9 @@ def run(model, col, tier):
     # ---------------- R02.8 use lists are refreshed after instructions were swapped -----
     # a handler that *returns* a new instruction replaces the visited one in its block (Node.ForEachChild);
     # the function-level use lists then still name the replaced objects until UpdateUses() runs
+    from .. import lowering as _low
+
+    _low.check_function_bracket(model, col, "R02.8")
     D_ = Dispatch(model)
     instr_names = {c.name for c in D_.ir_instruction_classes(concrete_only=False)}
     nswap = 0
